@@ -86,7 +86,10 @@ def is_strict(word):
 @functools.lru_cache(maxsize=400000)
 def quadrant_geo(word, i):
     """quadrant of pin p_{i+1} (the pin placed by word[i]) with respect to the origin"""
-    x, y = place(word[: i + 1])[i]
+    try:  # pins never move once placed: the i-th pin of the whole word is the i-th pin of the prefix
+        x, y = place(word)[i]
+    except BadWord:
+        x, y = place(word[: i + 1])[i]
     for q, (sx, sy) in QSIGN.items():
         if (x > 0) == (sx > 0) and (y > 0) == (sy > 0):
             return q
